@@ -338,7 +338,11 @@ def main(argv=None):
         key = f"{o['family']}@{o['config']}"
         was = strip_path(o["name"]) in locked_names.get(key, set()) or (
             o["name"].endswith("]") and "no-exception[" in o["name"] and key in locked_names)
-        if was:
+        # a NEW obligation (a path or a post that the unchanged code does not have) of a family that was fully discharged on the unchanged
+        # tree, refuted by the solver with the schematic hypotheses as quantifiers: the changed code fails the family's contract
+        new_and_refuted = (not was and key in locked_names and (o.get("orig_status") or o["status"]) == "refuted"
+                           and locked.get("proved_per_family", {}).get(key, 0) > 0)
+        if was or new_and_refuted:
             regressed.setdefault((o["family"], o["config"]), []).append(o)
     regressions = [(f_, c_, len(v_)) for (f_, c_), v_ in regressed.items()]
 
@@ -402,7 +406,7 @@ def main(argv=None):
         if any(v[0] == "proof:" + fam_name for v in violations):
             continue                                    # already reported with a replayed counterexample
         fb = [v for v in violations if v[0] == "family-bounded:" + fam_name]
-        detail = f"obligation(s) discharged on the unchanged tree now fail: {names[:4]}" + (f" (+{len(names) - 4} more)" if len(names) > 4 else "")
+        detail = f"obligation(s) of a family discharged on the unchanged tree now fail: {names[:4]}" + (f" (+{len(names) - 4} more)" if len(names) > 4 else "")
         if fb:
             src, sig, msg, payload = fb[0]
             violations.append(("proof:" + fam_name, sig, detail + "; failing input from the concrete reading of the same contract: " + msg,
